@@ -112,9 +112,9 @@ type world struct {
 	sc1, sc2 uint64 // compass contract ids: sc1 active, sc2 saved
 	userVal  string
 	userID   uint64
-	base     [2]sdk.Context // prepared worlds: 0 = plain, 1 = compass sc2 uploaded, hand-over pending
-	idBase   [2]uint64      // real message id = idBase + model id
-	reg      [2]*registry
+	base     [3]sdk.Context // prepared worlds: 0 = plain, 1 = compass sc2 uploaded and hand-over pending, 2 = snapshot s2 live and re-published once
+	idBase   [3]uint64      // real message id = idBase + model id
+	reg      [3]*registry
 }
 
 // registry gives small integers to data / tx hashes / evidence identities
@@ -253,6 +253,31 @@ func newWorld() *world {
 	w.base[1] = r.ctx
 	w.reg[1] = r.reg
 	w.idBase[1] = w.idBase[0] + 1 // model: the pending hand-over message has id 1
+	// world 2: s2 went live (message 0 of the model) and was published again (message 1); both transactions are used up
+	c2, _ := ctx.CacheContext()
+	r = w.newRun(c2, newRegistry(), w.idBase[0])
+	for _, m := range []int{1, 2} {
+		if res, _ := r.step(drv.Step{Act: "Enqueue", Args: json.RawMessage(`{"kind":"valset"}`)}); res != "ok" {
+			panic("world 2: enqueue valset " + res)
+		}
+		if res, _ := r.step(drv.Step{Act: "Sign", Args: json.RawMessage(fmt.Sprintf(`{"v":2,"m":%d}`, m))}); res != "ok" {
+			panic("world 2: sign " + res)
+		}
+		for _, v := range []int{1, 2} {
+			a := fmt.Sprintf(`{"v":%d,"m":%d,"t":"tx","of":%d,"k":1,"corr":"none","st":"ok","n":1}`, v, m, m)
+			if res, x := r.step(drv.Step{Act: "Evidence", Args: json.RawMessage(a)}); res != "ok" {
+				panic(fmt.Sprint("world 2: evidence ", res, x))
+			}
+		}
+		r.step(drv.Step{Act: "EndBlock", Args: json.RawMessage(`{}`)})
+	}
+	o = r.observe()
+	if len(o["queue"].([]any)) != 0 || o["live2"] != 2 || len(o["processed"].([]int)) != 2 {
+		panic(fmt.Sprintf("world 2 not in the expected state: %v", o))
+	}
+	w.base[2] = r.ctx
+	w.reg[2] = r.reg
+	w.idBase[2] = w.idBase[0] + 1
 	return w
 }
 
@@ -479,7 +504,7 @@ func (r *run) refEncode(m ct.QueuedSignedMessageI, k int, corr string) ([]byte, 
 		}
 		cons := consensusT{Valset: toValsetT(vr.Valset)}
 		sd := m.GetSignData()
-		if k > len(sd) || k < 1 {
+		if k > len(sd) || k < 0 {
 			return nil, fmt.Errorf("prefix %d of %d signatures", k, len(sd))
 		}
 		byAddr := map[common.Address][]byte{}
@@ -986,6 +1011,9 @@ func (r *run) step(s drv.Step) (res string, extra map[string]any) {
 		r.ctx = r.ctx.WithBlockHeight(r.height).WithBlockTime(r.ctx.BlockTime().Add(60 * time.Second)) // keeps the relayer pick (block time modulo pool size) stable
 		r.estimatePhase()
 		res = "eb"
+		if extra["errc"] != "" {
+			res = extra["errc"].(string)
+		}
 	default:
 		panic("unknown action " + s.Act)
 	}
